@@ -166,8 +166,11 @@ def write_anc(grp, base, side, is_spec, idx_dtype='u4', val_dtype='f4'):
     if val_dtype == 'f8':
         # double precision values that single precision cannot hold; (v * 4).round() still decodes the quarter units
         vals = np.asarray(vals, dtype=np.float64) + 0.1
+    if val_dtype == 'i4':
+        # reference values stored as integers (the caller supplies whole numbers)
+        assert np.all(np.asarray(vals) == np.round(vals))
     d_v = grp.create_dataset(base + '_Values', data=np.ascontiguousarray(vals),
-                             dtype=np.float64 if val_dtype == 'f8' else np.float32)
+                             dtype={'f8': np.float64, 'i4': np.int32}.get(val_dtype, np.float32))
     for d in (d_i, d_v):
         d.attrs['labels'] = np.array(side['labels'], dtype='S')
         d.attrs['units'] = np.array(side['units'], dtype='S')
